@@ -83,6 +83,11 @@ def _worker(arg):
         def offer(mut, desc, region):
             st['mutants'] += 1
             try:
+                # the node has just seen the genuine block (decoded from its original bytes) when the altered copy arrives
+                Block.deserialize(raw)
+            except Exception:
+                pass
+            try:
                 b = Block.deserialize(mut)
             except Exception as e:
                 st['undecodable'] += 1
